@@ -153,6 +153,33 @@ pub fn sites(tier: Tier) -> Vec<Site> {
                 SLOTS[slot()].store(u64::MAX, AO::Relaxed);
             }));
     }
+    // two lengths at once: the number of fraction zeros and the number of revision digits, in well-formed texts with and
+    // without a leading zero (the printed form may be longer than the text: any limit on either meets the other here)
+    {
+        let leads = ["", "0", "00", "12"];
+        let digits = ["1", "9", ""];
+        let letters = ["F", "", "f"];
+        let per = (leads.len() * digits.len() * letters.len() * 2) as u64;
+        let n = 65 * 25 * per;
+        sites.push(Site::new("length-grid", n,
+            "lead {nothing, 0, 00, 12} + '.' + 0..=64 zeros + {1, 9, nothing} + letter {F, nothing, f} + revision of 0..=24 digits (with / without a leading zero): parse, print, re-parse",
+            move |i, acc| {
+                let mut j = i;
+                let lz = j % 2 == 1; j /= 2;
+                let letter = letters[(j % 3) as usize]; j /= 3;
+                let d = digits[(j % 3) as usize]; j /= 3;
+                let lead = leads[(j % 4) as usize]; j /= 4;
+                let r = (j % 25) as usize; j /= 25;
+                let z = j as usize;
+                let mut s = String::from(lead);
+                s.push('.');
+                for _ in 0..z { s.push('0'); }
+                s.push_str(d);
+                s.push_str(letter);
+                for k in 0..r { s.push(if k == 0 && lz { '0' } else { char::from(b'1' + (k % 9) as u8) }); }
+                let _ = check_string(&s, i, "length-grid", acc);
+            }));
+    }
     // no memory between calls: every ordered pair of strings of length <= 2 over the alphabet parsed back to back
     {
         let mut short: Vec<String> = vec![String::new()];
@@ -340,6 +367,14 @@ pub fn sites(tier: Tier) -> Vec<Site> {
                 }
             }));
         }
+    }
+    // ... nor between threads
+    {
+        let corpus: Vec<(String, String)> = ["0.7F", "0.7F12", "0.6R", "0.7", "0.7A1", "7", "", "0.7f3", "0.04K", "123456789.5Z99", "0.7F0", "x"].iter().map(|s| (format!("version {s:?}"), s.to_string())).collect();
+        sites.push(crate::crossthread::site("C16", "cross-thread-parses", "parse + print + compare with 0.7F", corpus, |s: &String| {
+            let base = GameVersion::from_str("0.7F").ok();
+            GameVersion::from_str(s).map(|v| (format!("{v:?}"), v.to_string(), base.as_ref().map(|b| v.cmp(b)))).map_err(|e| e.to_string())
+        }));
     }
     sites
 }
